@@ -59,6 +59,7 @@ Calls ==
   \cup {[C("GAppend") EXCEPT !.g = g, !.n = n] : g \in {1, 2}, n \in N}
   \cup {[C("GExtend") EXCEPT !.g = 1, !.vs = <<n, m>>] : n \in N, m \in N}
   \cup {[C("GInsertAfter") EXCEPT !.g = 1, !.n = a, !.vs = <<n>>] : a \in N, n \in N}
+  \cup (IF Len(st.nIn) >= 3 THEN {} ELSE {[C("GExtendGen") EXCEPT !.g = 1, !.v = v, !.i = k] : v \in PV, k \in {1, 2}})
   \cup {[C("GRemove") EXCEPT !.g = 1, !.vs = <<n>>, !.flag = f] : n \in N, f \in BOOLEAN}
   \cup (IF Len(st.nIn) >= 3 THEN {}
         ELSE {[C("NewNode") EXCEPT !.vs = <<v>>, !.ws = <<>>, !.i = k, !.g = g] : v \in PV, k \in {1, 2}, g \in {0, 1}}
